@@ -46,3 +46,66 @@ Definition coverage_run (ds : dataset) (q : query) : bool * bool :=
 (* the syntactic hypotheses of C01_pattern_syntactic: (noerr, typed) *)
 Definition syntactic_run (ds : dataset) (q : query) : bool * bool :=
   (noerr (sel_where (q_sel q)), typed (mk_view ds (q_from q) (q_from_named q)) (sel_where (q_sel q))).
+
+(* ---- the plan-cache keys (MemoKeyPlan.v) against the keys of the real optimizer's memo ----
+   For every node of the implementation's logical plan that find_best_plan_recursive keys (every node except those strictly
+   inside a homogeneous scan group, which reorder_logical permutes and the star rewrite may plan as a whole; and except a scan
+   group directly under a Selection, which the star rule plans together with the Selection): the keys of all its variants under
+   reorder_logical (every permutation of every scan group, rebuilt left-deep).  The check requires one of them in the memo.
+   A node with more than 200 variants yields the empty list (not compared). *)
+Require Import KV.Sparql.MemoKey KV.Sparql.MemoKeyPlan.
+
+Fixpoint ins_all {A} (x : A) (l : list A) : list (list A) :=
+  match l with [] => [[x]] | y :: r => (x :: y :: r) :: map (cons y) (ins_all x r) end.
+Fixpoint perms {A} (l : list A) : list (list A) :=
+  match l with [] => [[]] | x :: r => flat_map (ins_all x) (perms r) end.
+Definition left_deep (qs : list qpat) : lop :=
+  match qs with [] => LUnit | q :: r => fold_left (fun acc q' => LJoin acc (LScan q')) r (LScan q) end.
+Fixpoint fact (n : nat) : N := match n with O => 1%N | S k => (N.of_nat (S k) * fact k)%N end.
+
+Fixpoint nvariants (l : lop) {struct l} : N :=
+  match l with
+  | LJoin a b => match scan_scope l with Some _ => fact (List.length (flatten_scans l)) | None => (nvariants a * nvariants b)%N end
+  | LUnion bs => (fix go (bs : list lop) : N := match bs with [] => 1%N | b :: r => (nvariants b * go r)%N end) bs
+  | LGraph i _ | LSelection i _ | LSubquery i _ | LBind i _ _ => nvariants i
+  | _ => 1%N
+  end.
+Fixpoint variants (l : lop) {struct l} : list lop :=
+  match l with
+  | LJoin a b =>
+      match scan_scope l with
+      | Some _ => map left_deep (perms (flatten_scans l))
+      | None => flat_map (fun a' => map (LJoin a') (variants b)) (variants a)
+      end
+  | LUnion bs =>
+      map LUnion ((fix go (bs : list lop) : list (list lop) :=
+                     match bs with [] => [[]] | b :: r => flat_map (fun b' => map (cons b') (go r)) (variants b) end) bs)
+  | LGraph i g => map (fun i' => LGraph i' g) (variants i)
+  | LSelection i c => map (fun i' => LSelection i' c) (variants i)
+  | LSubquery i s => map (fun i' => LSubquery i' s) (variants i)
+  | LBind i args v => map (fun i' => LBind i' args v) (variants i)
+  | _ => [l]
+  end.
+Definition is_group (l : lop) : bool :=
+  match l with LJoin _ _ => match scan_scope l with Some _ => true | None => false end | _ => false end.
+Fixpoint knodes (l : lop) {struct l} : list lop :=
+  l :: match l with
+       | LJoin a b => if is_group l then [] else knodes a ++ knodes b
+       | LUnion bs => (fix go (bs : list lop) : list lop := match bs with [] => [] | b :: r => knodes b ++ go r end) bs
+       | LSelection i _ => if is_group i then [] else knodes i
+       | LGraph i _ | LSubquery i _ | LBind i _ _ => knodes i
+       | _ => []
+       end.
+
+Definition enc_of (dict : list (term * N)) (t : term) : N :=
+  match find (fun p => term_eqb (fst p) t) dict with Some p => snd p | None => 0%N end.
+Definition vn_of (names : list (var * string)) (x : var) : string :=
+  match find (fun p => N.eqb (fst p) x) names with Some p => snd p | None => show_var x end.
+
+Definition memo_keys_run (names : list (var * string)) (dict : list (term * N)) (l : lop) : list (list string) :=
+  map (fun n => if (nvariants n <=? 200)%N then map (plan_key (vn_of names) (enc_of dict)) (variants n) else []) (knodes l).
+
+(* the same, decided in Coq against the keys found in the real memo: Some true = one of the node's variant keys is there *)
+Definition memo_check_run (names : list (var * string)) (dict : list (term * N)) (l : lop) (real : list string) : list (option bool) :=
+  map (fun ks => match ks with [] => None | _ => Some (existsb (fun k => existsb (String.eqb k) real) ks) end)
+      (memo_keys_run names dict l).
